@@ -5,6 +5,7 @@ package varmq
 // parameters; DESIGN §4.1, §5).
 
 import (
+	"math"
 	"os"
 
 	"github.com/goptics/varmq/internal/simrt"
@@ -92,7 +93,7 @@ func pickW(r *simrt.Rand, ws []wop) int {
 	return ws[0].K
 }
 
-var prioVals = []int{-1 << 62, -2, -1, 0, 0, 1, 1, 2, 1<<62 - 1}
+var prioVals = []int{math.MinInt, -1 << 62, -2, -1, 0, 0, 1, 1, 2, 1<<62 - 1, math.MaxInt}
 
 func simParams(r *simrt.Rand, c *Cfg, pf *Profile) {
 	switch x := r.Intn(10); {
@@ -184,7 +185,7 @@ func generate(r *simrt.Rand, pf *Profile) (Cfg, *Program) {
 		case x < pf.ErrPct:
 			s.Outcome = 1
 		case x < pf.ErrPct+pf.PanicPct:
-			s.Outcome = 2 + r.Intn(2)
+			s.Outcome = 2 + r.Intn(4)
 		}
 		if r.Chance(pf.CloseInFnPct) {
 			s.CloseInFn = true
@@ -264,6 +265,8 @@ func generate(r *simrt.Rand, pf *Profile) (Cfg, *Program) {
 				op.A = pick(r, pf.QKinds)
 			case opSettle:
 				op.A = 1
+			case opIntro:
+				op.A = r.Intn(4)
 			case opAdvance:
 				op.A = 1 + r.Intn(4)
 			case opLongIdle:
@@ -317,6 +320,8 @@ func generate(r *simrt.Rand, pf *Profile) (Cfg, *Program) {
 				}
 			case opSettle:
 				op.A = 1
+			case opIntro:
+				op.A = r.Intn(4)
 			case opBatchPending:
 				if p.NBatches > 0 {
 					op.A = r.Intn(p.NBatches)
@@ -536,6 +541,7 @@ func init() {
 			pf.Cancellers, pf.CancelOps = [2]int{0, 1}, [2]int{1, 3}
 			pf.Cancel = []wop{{opCloseJob, 6}, {opPurge, 2}, {opCloseQueue, 1}}
 			pf.Releaser = 70
+			pf.CloseInFnPct = 5
 			bigBatch(pf, r, tier)
 			return generate(r, pf)
 		},
@@ -724,9 +730,10 @@ func init() {
 			pf.DelayPct, pf.MaxDelay = 15, 2
 			pf.ReaderPct, pf.BatchWaitPct = 90, 60
 			pf.Cancellers, pf.CancelOps = [2]int{0, 1}, [2]int{1, 3}
-			pf.Cancel = []wop{{opPurge, 3}, {opCloseQueue, 3}, {opYield, 2}}
+			pf.Cancel = []wop{{opPurge, 3}, {opCloseQueue, 3}, {opCloseJob, 3}, {opYield, 2}}
 			pf.Samplers, pf.SampleOps = [2]int{0, 1}, [2]int{1, 4}
 			pf.Sample = []wop{{opBatchPendingAny, 5}, {opYield, 2}}
+			pf.CloseInFnPct = 10 // a refused Close on an executing batch item must change nothing
 			bigBatch(pf, r, tier)
 			return generate(r, pf)
 		},
@@ -809,6 +816,9 @@ func genFuzz(r *simrt.Rand, tier string) (Cfg, *Program) {
 			}
 			if k == opBind {
 				op.A = pick(r, memKinds)
+			}
+			if k == opIntro {
+				op.A = r.Intn(4)
 			}
 			ops = append(ops, op)
 		}
